@@ -89,8 +89,7 @@ def parseOptOrder (s : String) : Option (Option Order) :=
 
 def joinWith (sep : String) : List String → String
   | [] => ""
-  | [x] => x
-  | x :: xs => x ++ sep ++ joinWith sep xs
+  | x :: xs => xs.foldl (fun acc y => acc ++ sep ++ y) x     -- appends to the accumulator: linear
 
 def showList (f : α → String) (l : List α) : String := "[" ++ joinWith "," (l.map f) ++ "]"
 
